@@ -83,7 +83,9 @@ def _prob_level(prog, ci, fi, e, depth=0):
             if f.attr == "transform_to_failure_probability":
                 out.add("P50" if n.args and const_value(n.args[0]) == 0.5 else "OTHER")
                 return                      # do not descend: attributes of the transformed curve are at that level
-            if is_self_attr(f) and f.attr in ("cycles", "load", "basquin_cycles", "basquin_load"):
+            derived = isinstance(f.value, ast.Call) and isinstance(f.value.func, ast.Attribute) and is_self_attr(f.value.func) and \
+                f.value.func.attr.startswith("miner_")
+            if (is_self_attr(f) or derived) and f.attr in ("cycles", "load", "basquin_cycles", "basquin_load"):
                 explicit = len(n.args) > 1 or any(k.arg == "failure_probability" for k in n.keywords)
                 out.add("OTHER" if explicit else "P50")
                 for a in n.args:
